@@ -4,7 +4,7 @@ ID = "C10"
 LEVEL = "proof"
 TAGS = ("C10",)
 CONTRACT_MODULES = ALL_CONTRACTS
-FUNCTIONS = [S + "resetState", P + "on_event", S + "enterExcludedRegion", S + "_processPendingCommands"]
+FUNCTIONS = [S + "resetState", P + "on_event", S + "enterExcludedRegion", S + "_processPendingCommands", P + "initialize"]
 ASSUMPTIONS = ["A1", "A3", "A4", "INDUCTION"]
 PER_PRINT = ("position", "feedRate", "feedRateUnitMultiplier", "_exclusionEnabled", "excluding", "excludeStartTime",
              "numExcludedCommands", "numCommands", "lastRetraction", "lastPosition", "pendingCommands")
